@@ -860,10 +860,15 @@ class Step(Node):
         old_env_vars = sorted(self.env_deps(dynamic=False))
         if old_env_vars != sorted(env_deps):
             return False
-        old_out_paths = sorted(r.path for r in self.out_paths(dynamic=False))
+        # An edge from this step to a former output can outlive a partial recycle,
+        # which cuts the input edges only (see `Trellis.create`).
+        # Such an output is no longer created by this step, so it is not part of what
+        # the detached step declares: a full recycle would not bring it back.
+        own_paths = {r.path for r in self._paths("product", raw=True)}
+        old_out_paths = sorted(r.path for r in self.out_paths(dynamic=False) if r.path in own_paths)
         if old_out_paths != sorted(out_paths):
             return False
-        old_vol_paths = sorted(r.path for r in self.vol_paths(dynamic=False))
+        old_vol_paths = sorted(r.path for r in self.vol_paths(dynamic=False) if r.path in own_paths)
         return old_vol_paths == sorted(vol_paths)
 
     def after_recycle(
